@@ -202,3 +202,26 @@ Example C18_web_premises_met :
   requiv idna_toy prof_GoogleSafeBrowsing wk1 wk2 /\ requiv idna_toy prof_Semantic wk1 wk2 /\
   CfgWeb (p_cfg prof_GoogleSafeBrowsing) /\ CfgWeb (p_cfg prof_Semantic).
 Proof. exact (conj (proj1 (proj2 experimental_premises)) (conj (proj2 (proj2 experimental_premises)) (conj CfgWeb_gsb CfgWeb_sem))). Qed.
+
+(* the same with IPv4 and IPv6 literal hosts (web_ok', see Properties/C17.v): two spellings whose hosts have the same value -
+   0x7F.1 and 127.0.0.1, [0:0::1] and [::1] - canonicalize alike *)
+From Verif Require Import Proofs.WebHostNumeric Proofs.ExperimentalHosts.
+Theorem C18_gsb_spellings_any_host : forall idna_raw k1 k2, oracle_ascii_transparent idna_raw ->
+  web_ok' prof_GoogleSafeBrowsing k1 = true -> web_ok' prof_GoogleSafeBrowsing k2 = true ->
+  requiv idna_raw prof_GoogleSafeBrowsing k1 k2 ->
+  same_cres (ProfileParse idna_raw prof_GoogleSafeBrowsing (text_of k1)) (ProfileParse idna_raw prof_GoogleSafeBrowsing (text_of k2)).
+Proof. exact gsb_spelling'. Qed.
+Print Assumptions C18_gsb_spellings_any_host.
+Theorem C18_semantic_spellings_any_host : forall idna_raw k1 k2, oracle_ascii_transparent idna_raw ->
+  web_ok' prof_Semantic k1 = true -> web_ok' prof_Semantic k2 = true ->
+  requiv idna_raw prof_Semantic k1 k2 ->
+  same_cres (ProfileParse idna_raw prof_Semantic (text_of k1)) (ProfileParse idna_raw prof_Semantic (text_of k2)).
+Proof. exact semantic_spelling'. Qed.
+Print Assumptions C18_semantic_spellings_any_host.
+Example C18_any_host_premises_met :
+  forallb (fun p => web_ok' p hk4a && web_ok' p hk4b && web_ok' p hk6a && web_ok' p hk6b
+                    && negb (web_ok p hk4a) && negb (web_ok p hk6a))
+    [prof_GoogleSafeBrowsing; prof_Semantic] = true /\
+  requiv idna_toy prof_GoogleSafeBrowsing hk4a hk4b /\ requiv idna_toy prof_Semantic hk4a hk4b /\
+  requiv idna_toy prof_GoogleSafeBrowsing hk6a hk6b /\ requiv idna_toy prof_Semantic hk6a hk6b.
+Proof. exact (conj (proj1 experimental_hosts_premises) (conj (proj1 (proj2 experimental_hosts_premises)) (conj (proj1 (proj2 (proj2 experimental_hosts_premises))) (conj (proj1 (proj2 (proj2 (proj2 experimental_hosts_premises)))) (proj1 (proj2 (proj2 (proj2 (proj2 experimental_hosts_premises))))))))). Qed.
